@@ -8,6 +8,8 @@ func extraCommand(name string, args []string) bool {
 		cmdSim(args)
 	case "handlers":
 		cmdHandlers(args)
+	case "upgrade":
+		cmdUpgrade(args)
 	default:
 		return false
 	}
